@@ -127,7 +127,8 @@ def run_query(text, A, names, writer_factory, count_pulls):
 def part_pipe(sh, res):
     rc = tree.csvmod()
     for name, text, hdr in shapes()[sh['lo']:sh['hi']]:
-        for A in tables() + ([[['k', 'L' * 3000 + ';z']] * 6] if sh['raw'] else []):
+        big = [[BASE[i % len(BASE)][0], 'v%d;w' % i] for i in range(300)]
+        for A in tables() + ([[['k', 'L' * 3000 + ';z']] * 6] if sh['raw'] else []) + ([big] if name in ('streaming', 'header', 'unnest', 'sorted', 'update') else []):
             names = ['c1', 'c2'] if hdr else None
             # fault-free run
             if not sh['raw']:
@@ -143,7 +144,9 @@ def part_pipe(sh, res):
                 continue
             W = st0.calls
             res.states += W + 1
-            for k in range(0, W + 1):
+            # every fault index for the small tables; for the 300-record table every index up to 40, then every 7th, then the last ones
+            ks = range(0, W + 1) if W <= 120 else sorted(set(list(range(0, 41)) + list(range(41, W + 1, 7)) + list(range(W - 3, W + 1))))
+            for k in ks:
                 st = FaultyRaw(k) if sh['raw'] else FaultyText(k)
                 holder = {}
 
